@@ -6,6 +6,11 @@ ids = [p['id'] for p in props]
 
 # id -> (category, technique, text, note, design_ref)
 CHECKS = {
+ 'C17': ('exploration',
+         'model-based property testing: generated class graphs against an independent reachability oracle, in isolated child processes',
+         'Class graphs of 1-14 classes with multiple inheritance, diamonds, cycles, self references, dangling names, enums named as super classes and non-public edges, and small name pools for properties, methods, enums and variants (so shadowing is common) are loaded as type information; every pairwise derives-from/common-base query and every (class, name) lookup is compared with a reachability oracle over public resolvable edges written in the harness. The search runs in child processes with a per-case watchdog and a memory limit, so unbounded recursion, allocation or looping becomes a violation with a replay file.',
+         'When an unresolvable/invalid public super reference is reachable from the queried class, the API\'s error arm is accepted (TypeMapError is the documented report of an inconsistent map). Termination is judged by watchdog with margin and confirmation. One known finding (scoped super-class name recursing through its own bases) is excluded by construction and confirmed by a child-process probe.',
+         'DESIGN.md section 3 C17'),
  'C04': ('exploration',
          'property-based testing: validity predicate over both artifacts, planted faults, and file-system observation of the real binary',
          'Accepted documents mixing constant bindings of every catalogue kind, dynamic bindings, handlers and mixed gadget maps on arbitrary object trees: every binding must surface in exactly one place (decoded .ui value, or exactly one update/connect on exactly its object in the scanned header). Faulted documents (one of 17 fault kinds planted anywhere): not accepted, an error diagnostic within the text of the faulty binding, and - through the real qmluic binary in a scratch project with pre-existing outputs - exit status 1 with every file byte-, inode- and mtime-identical and nothing created.',
